@@ -9,6 +9,7 @@ simulated multicast fabric.  C03 stops after routing and walks every tree on
 the truth.
 """
 import collections
+import copy
 
 from rigsim import fabric
 from rigsim.core import Tape
@@ -398,6 +399,10 @@ class DeployEngine(object):
             mv = prcheck.MachineView(machine)
             app_cons = self.app_constraints(g, mv)
             constraints = base_cons + app_cons
+            # what the caller asked for, kept apart from the objects rig sees
+            cons_ref = self.clone_constraints(constraints)
+            vr_ref = collections.OrderedDict(
+                (v, dict(r)) for v, r in g.vertices_resources.items())
             w.ops.append("graph: %s" % g.describe())
             if not mv.strongly_connected():
                 w.probe("disconnected_machine")
@@ -452,6 +457,8 @@ class DeployEngine(object):
                 placements, allocations, app_map, tables = val
                 constraints = base_cons + app_cons + [
                     self.cons.AlignResourceConstraint(self.R.SDRAM, 4)]
+                cons_ref = cons_ref + [
+                    self.cons.AlignResourceConstraint(self.R.SDRAM, 4)]
                 routes = None
             else:
                 if not self.c03:
@@ -462,7 +469,7 @@ class DeployEngine(object):
                 if st == "exc":
                     return self.stage_failed("place", placements, mv)
                 probs = prcheck.check_placement(
-                    g.vertices_resources, mv, constraints, placements,
+                    vr_ref, mv, cons_ref, placements,
                     self.cons)
                 if probs and not self.c03:
                     self.violate_stage("PL", "place[%s]" % pname, probs)
@@ -475,7 +482,7 @@ class DeployEngine(object):
                 if st == "exc":
                     return self.stage_failed("allocate", allocations, mv)
                 probs = prcheck.check_allocation(
-                    g.vertices_resources, mv, constraints, placements,
+                    vr_ref, mv, cons_ref, placements,
                     allocations, self.cons)
                 if probs and not self.c03:
                     self.violate_stage("AL", "allocate", probs)
@@ -553,12 +560,12 @@ class DeployEngine(object):
             # wrapper styles: stage checks on what they returned
             if routes is None:
                 probs = prcheck.check_placement(
-                    g.vertices_resources, mv, constraints, placements,
+                    vr_ref, mv, cons_ref, placements,
                     self.cons)
                 if probs:
                     self.violate_stage("PL", "place[%s]" % pname, probs)
                 probs = prcheck.check_allocation(
-                    g.vertices_resources, mv, constraints, placements,
+                    vr_ref, mv, cons_ref, placements,
                     allocations, self.cons)
                 if probs:
                     self.violate_stage("AL", "allocate", probs)
@@ -645,6 +652,16 @@ class DeployEngine(object):
                 self.rt.MinimisationFailedError,
                 self.rt.MultisourceRouteError):
             pass
+
+    @staticmethod
+    def clone_constraints(constraints):
+        out = []
+        for c_ in constraints:
+            cc = copy.copy(c_)
+            if hasattr(cc, "vertices"):
+                cc.vertices = list(c_.vertices)
+            out.append(cc)
+        return out
 
     def stage_failed(self, stage, exc, mv):
         w, c = self.w, self.c
